@@ -147,7 +147,7 @@ def sanitize(module, snap=None, roundtrip=True, failure_path=False,
         if isinstance(v, gtirb.Node):
             if not attached(v):
                 out.append((f"irsan:aux-node-detached:{table}",
-                            type(v).__name__))
+                            type(v).__name__, v))
             return
         if isinstance(v, (str, bytes, int, float, uuidlib.UUID)) or v is None:
             return
